@@ -22,6 +22,9 @@ type StartParams struct {
 	Mode        string `json:"mode"`
 	PartialFile bool   `json:"partial_file"` // file backend whose file holds only vb0 although vb0..1 are assigned
 	NoActive    bool   `json:"no_active"`
+	// Mitigation: rollback mitigation is on: its own start-up requests (fail-over logs) are start-up requests;
+	// its periodic persistence polls are not (errors there are tolerated by design, C07)
+	Mitigation bool `json:"mitigation"`
 }
 
 type TypeParams struct {
@@ -70,6 +73,7 @@ func init() {
 			for _, mode := range []string{"infinite", "finite"} {
 				out = append(out, Instance{Scenario: "c15_start", Params: mustJSON(StartParams{Reset: "earliest", Mode: mode, NoActive: true}), Bound: 0, Note: "an assigned vBucket has no active copy: the sequence-number answers succeed but do not cover it"})
 			}
+			out = append(out, Instance{Scenario: "c15_start", Params: mustJSON(StartParams{Reset: "earliest", Mode: "infinite", Mitigation: true}), Bound: 1, Shards: 4, Note: "rollback mitigation on (the default): the fail-over-log queries it issues when the session starts are start-up requests too"})
 			out = append(out, Instance{Scenario: "c12_duringopen", Params: mustJSON(struct{}{}), Bound: b, Shards: 4, Note: "a started session never silently covers only part of the assignment: a stream ending while Open() still waits for another vBucket is re-opened or counted"})
 			out = append(out, Instance{Scenario: "c15_reopen_fault", Params: mustJSON(struct{}{}), Bound: 0, Note: "load failures at the start-up that ends a rebalance"})
 			out = append(out, Instance{Scenario: "c15_slowfail", Params: mustJSON(struct{}{}), Bound: b, Shards: 4, Note: "the failing stream request is the last one to complete: every schedule within the bound"})
@@ -99,6 +103,21 @@ func startClassify(r *vrt.Result) []string {
 		}
 	}
 	var msgs []string
+	mitigation := false
+	for _, l := range r.Log {
+		if l == "MITIGATION" {
+			mitigation = true
+		}
+	}
+	if expectFail && mitigation {
+		// rollback mitigation loads its fail-over logs on its own thread while the session starts: the session may
+		// signal readiness first - what matters is that the failure terminates the client
+		if r.Status != vrt.StatusCrash {
+			msgs = append(msgs, fmt.Sprintf("start-up met %s but the client was not terminated (status %s, ready=%v)", describeFaults(r.Log), r.Status, ready))
+		}
+		r.Failures = nil
+		return msgs
+	}
 	if expectFail {
 		if ready {
 			msgs = append(msgs, "the client signalled readiness although the start-up met "+describeFaults(r.Log))
@@ -131,7 +150,7 @@ func describeFaults(log []string) string {
 
 func startMain(p StartParams) {
 	resetGlobals()
-	o := EnvOpts{Vbs: 2, Nodes: 2, CheckpointType: "manual", AutoReset: p.Reset, Mode: config.DcpMode(p.Mode), WrapMeta: true}
+	o := EnvOpts{Vbs: 2, Nodes: 2, CheckpointType: "manual", AutoReset: p.Reset, Mode: config.DcpMode(p.Mode), WrapMeta: true, Mitigation: p.Mitigation}
 	if p.PartialFile {
 		f, _ := os.CreateTemp("", "c15*.json")
 		f.WriteString(`{"0":{"checkpoint":{"vbuuid":1000,"seqno":2,"snapshot":{"startSeqno":1,"endSeqno":5}},"bucketUuid":"uuid-src"}}`)
@@ -140,6 +159,9 @@ func startMain(p StartParams) {
 		o.Metadata, o.FileName = "file", f.Name()
 		vrt.Logf("AHEAD-LIKE")
 		vrt.Logf("FAULT checkpoint store covers only vb0 of the assigned vb0..1")
+	}
+	if p.Mitigation {
+		vrt.Logf("MITIGATION")
 	}
 	c := NewCluster(&o)
 	if p.NoActive {
@@ -189,7 +211,7 @@ func startMain(p StartParams) {
 		return nil
 	}
 	c.Fault = func(r *gocbcore.SimRequest) gocbcore.SimAnswer {
-		if r.ID <= n0 {
+		if r.ID <= n0 || r.Kind == "observevb" {
 			return gocbcore.SimAnswer{}
 		}
 		switch vrt.Choose(3, false, "answer:"+r.Kind) {
@@ -225,6 +247,10 @@ func startMain(p StartParams) {
 	c.DispatchFault, c.Fault = nil, nil
 	vrt.Quiesce()
 	c.WaitIdle()
+	if p.Mitigation {
+		vrt.Sleep(3 * time.Minute) // an unanswered request of the mitigation's own start-up runs into its time-out
+		vrt.Quiesce()
+	}
 	// ready: every assigned vBucket must be served, and no request may start beyond the high seqno
 	for _, r := range c.RequestsOf("openstream") {
 		if r.Args[2] > highs[r.Vb] {
